@@ -9,6 +9,7 @@ answer table of re.fullmatch for every text the model may look up; the model
 never sees a regular expression.
 """
 import itertools
+import os
 import re
 
 from . import core
@@ -41,7 +42,10 @@ RULE = ("cases: (a) every table of <=3 entries over the prefixes '', /api, /apix
         "non-trivial = a mount case whose tree holds >=2 entries or is nested or answers 404; a hosts case with >=2 patterns "
         "or a non-constant match row")
 TRUSTED = ["Python's re.fullmatch as the oracle the host-dispatch model is parameterised by (answers computed by the harness)",
-           "leaf applications and gateway drivers of harness/c09.py (start_response / send recorders)"]
+           "leaf applications and gateway drivers of harness/c09.py (start_response / send recorders)",
+           "source-level tie for BaseSubpaths.search: tools/py2coq.py (Python ast -> Gallina, fail-closed; self._route_array "
+           "declared as a list of (prefix, endpoint) pairs) and coq/theories/Lib/PyStr.v (compared with the interpreter's str "
+           "methods on every run)"]
 ASSUMPTIONS = ["host patterns compile (re.error at construction time is outside the property)",
                "assert statements are enabled",
                "an ASGI scope carries 'headers' whenever its type is not lifespan"]
@@ -738,6 +742,20 @@ def shrink(case):
             for i in range(len(h)):
                 h2 = h[:i] + h[i + 1:]
                 yield hosts_case(patterns, h2, [[k, (h2 if v == h else v)] for k, v in headers], lifespan)
+
+
+# ---------------------------------------------------------------- the source-level tie (tools/py2coq.py)
+
+
+def extra_obligations(tier):
+    """BaseSubpaths.search is translated to Gallina from the source in BAIZE_REPO as it is now, and coqc re-checks
+    C09/Translated.v (translated loop = C09.Model.search, for every route list and path) against the fresh definition;
+    the PyStr functions the translation is made of are compared with the interpreter's own str methods."""
+    import importlib.util
+    spec = importlib.util.spec_from_file_location("py2coq", os.path.join(core.VERIF, "tools", "py2coq.py"))
+    py2coq = importlib.util.module_from_spec(spec)
+    spec.loader.exec_module(py2coq)
+    return py2coq.obligations(PID, core.REPO, core.VERIF)
 
 
 if __name__ == "__main__":
